@@ -45,6 +45,17 @@ def mkseg(d):
     return Arc(d[1], d[2], d[3], d[4], d[5], d[6])
 
 
+def desc_of(seg):
+    """description tuple of a segment object"""
+    from svgpathtools import Line, QuadraticBezier, CubicBezier
+    if isinstance(seg, Line): return ('L', complex(seg.start), complex(seg.end))
+    if isinstance(seg, QuadraticBezier): return ('Q', complex(seg.start), complex(seg.control), complex(seg.end))
+    if isinstance(seg, CubicBezier):
+        return ('C', complex(seg.start), complex(seg.control1), complex(seg.control2), complex(seg.end))
+    return ('A', complex(seg.start), complex(seg.radius), float(seg.rotation), bool(seg.large_arc), bool(seg.sweep),
+            complex(seg.end))
+
+
 def desc_hex(d):
     out = [d[0]]
     for x in d[1:]:
